@@ -320,6 +320,84 @@ fn check_history(cases: &[Case], out: &mut Out) {
     }
 }
 
+
+// ---- C18 (bounded stand-in for SvgBuilder::image(), which mixes f64 arithmetic with string building) ---------------
+fn attr(tag: &str, name: &str) -> Option<f64> {
+    let k = format!(" {}=\"", name);
+    let i = tag.find(&k)? + k.len();
+    let j = tag[i..].find('"')? + i;
+    tag[i..j].trim_end_matches("px").parse().ok()
+}
+
+fn c18_elements(svg: &str) -> Option<((f64, f64, f64), (f64, f64, f64))> {
+    // the frame is the <rect> directly in front of the <image> element
+    let ii = svg.find("<image ")?;
+    let ri = svg[..ii].rfind("<rect ")?;
+    let rect = &svg[ri..ii];
+    let img = &svg[ii..ii + svg[ii..].find("/>")?];
+    Some(((attr(rect, "x")?, attr(rect, "y")?, attr(rect, "width")?), (attr(img, "x")?, attr(img, "y")?, attr(img, "width")?)))
+}
+
+fn c18(size: &str, seed: u64) {
+    use fast_qr::convert::svg::SvgBuilder;
+    use fast_qr::convert::{Builder, ImageBackgroundShape};
+    let shapes = [ImageBackgroundShape::Square, ImageBackgroundShape::Circle, ImageBackgroundShape::RoundedSquare];
+    let mut r = Rng(0xC18C18C18C18 ^ seed.wrapping_mul(0x9E3779B97F4A7C15) | 1);
+    let (mut evals, mut fails) = (0usize, 0usize);
+    let mut fail = |what: &str, v: usize, s: usize, m: usize, ov: &str, detail: String| {
+        fails += 1;
+        if fails <= 12 { println!("{{\"fail\":true,\"property\":\"C18\",\"check\":\"{}\",\"case\":{{\"version0\":{},\"shape\":{},\"margin\":{},\"overrides\":\"{}\"}},\"detail\":\"{}\"}}", what, v, s, m, ov, detail.replace('"', "'")); }
+    };
+    let eq = |a: f64, b: f64| (a - b).abs() <= 0.011;   // the image element is printed with two decimals
+    let qrs: Vec<QRCode> = (0..40).map(|v| QRBuilder::new("x").version(VS[v]).build().unwrap()).collect();
+    let mut prev = [[0f64; 17]; 3];
+    for v in 0..40usize { for s in 0..3usize { for m in 0..=16usize {
+        let n = side(v) as f64;
+        let svg = SvgBuilder::default().image("data:,".to_string()).image_background_shape(shapes[s]).margin(m).to_str(&qrs[v]);
+        evals += 1;
+        let Some(((x, y, w), (ix, iy, iw))) = c18_elements(&svg) else { fail("elements", v, s, m, "", "no frame <rect> / <image> element found".into()); continue };
+        let mf = m as f64;
+        if !(x == y && eq(x + w / 2.0, mf + n / 2.0)) { fail("frame_centred", v, s, m, "", format!("frame x={} y={} w={} is not centred on the symbol (side {}, margin {})", x, y, w, n, m)); }
+        if (x - mf).fract() != 0.0 || w.fract() != 0.0 { fail("frame_module_aligned", v, s, m, "", format!("frame edge x={} w={} is not on a module boundary", x, w)); }
+        if !(w < 0.4 * n) { fail("frame_below_40_percent", v, s, m, "", format!("frame side {} >= 40% of {}", w, n)); }
+        if !(x - mf >= 8.0 && x - mf + w <= n - 8.0) { fail("frame_clear_of_finders", v, s, m, "", format!("frame [{}, {}] reaches the finder zone", x - mf, x - mf + w)); }
+        if v > 0 && w < prev[s][m] { fail("frame_monotone", v, s, m, "", format!("frame side {} smaller than for the previous version ({})", w, prev[s][m])); }
+        prev[s][m] = w;
+        if !(iw <= w + 0.011 && iw > 0.0) { fail("image_fits_frame", v, s, m, "", format!("image side {} larger than the frame {}", iw, w)); }
+        if !(eq(ix + iw / 2.0, x + w / 2.0) && eq(iy + iw / 2.0, y + w / 2.0)) { fail("image_centred", v, s, m, "", format!("image x={} w={} is not centred in the frame x={} w={}", ix, iw, x, w)); }
+    } } }
+    // explicit overrides (sampled)
+    let reps = if size == "thorough" { 4000 } else { 800 };
+    for _ in 0..reps {
+        let v = r.below(40); let s = r.below(3); let m = r.below(17);
+        let n = side(v) as f64;
+        let q = |r: &mut Rng, lo: f64, hi: f64| lo + (hi - lo) * (r.below(10_000) as f64 / 10_000.0);
+        let osz = if r.below(3) > 0 { Some(if r.below(2) == 0 { (1 + r.below(12)) as f64 } else { q(&mut r, 1.0, 14.0) }) } else { None };
+        let ogap = if r.below(3) > 0 { Some(if r.below(2) == 0 { r.below(4) as f64 } else { q(&mut r, 0.0, 3.0) }) } else { None };
+        let opos = if r.below(2) == 0 { Some((q(&mut r, 5.0, n), q(&mut r, 5.0, n))) } else { None };
+        let mut b = SvgBuilder::default();
+        b.image("data:,".to_string()).image_background_shape(shapes[s]).margin(m);
+        if let Some(z) = osz { b.image_size(z); }
+        if let Some(g) = ogap { b.image_gap(g); }
+        if let Some((px, py)) = opos { b.image_position(px, py); }
+        let ov = format!("size={:?} gap={:?} position={:?}", osz, ogap, opos);
+        let svg = b.to_str(&qrs[v]);
+        evals += 1;
+        let Some(((x, y, w), (ix, iy, iw))) = c18_elements(&svg) else { fail("elements", v, s, m, &ov, "no frame <rect> / <image> element found".into()); continue };
+        if let Some(z) = osz { if !eq(iw, z) { fail("requested_size", v, s, m, &ov, format!("image side {} but size {} was requested", iw, z)); } }
+        if let (Some(g), true) = (ogap, true) {
+            let want = iw + 2.0 * g;
+            if !(w <= want + 0.011 && w >= want - 1.011) { fail("requested_gap", v, s, m, &ov, format!("frame side {} for image {} and gap {} (expected {} less at most one module)", w, iw, g, want)); }
+        }
+        match opos {
+            Some((px, py)) => if !(eq(x + w / 2.0, px) && eq(y + w / 2.0, py)) { fail("requested_position", v, s, m, &ov, format!("frame centre ({}, {}) but position ({}, {}) was requested", x + w / 2.0, y + w / 2.0, px, py)); },
+            None => if !(x == y && (x + w / 2.0 - (m as f64 + n / 2.0)).abs() <= 0.5 + 1e-9) { fail("frame_centred", v, s, m, &ov, format!("frame x={} y={} w={} not centred (side {}, margin {})", x, y, w, n, m)); },
+        }
+        if !(eq(ix + iw / 2.0, x + w / 2.0) && eq(iy + iw / 2.0, y + w / 2.0)) { fail("image_centred", v, s, m, &ov, format!("image x={} y={} w={} is not centred in the frame x={} y={} w={}", ix, iy, iw, x, y, w)); }
+    }
+    println!("{{\"summary\":true,\"builds\":{},\"distinct_cases\":{},\"failures\":{},\"default_cases\":2040,\"override_cases\":{}}}", evals, evals, fails, reps);
+}
+
 // ---- corpus ---------------------------------------------------------------------------------------------------
 struct Rng(u64);
 impl Rng {
@@ -440,6 +518,10 @@ fn main() {
         if c.mask.is_none() { check_group(&c, &mut out); } else { check_case(&c, &mut out); }
         check_history(&[c], &mut out);
         println!("{{\"summary\":true,\"failures\":{}}}", out.n_fail);
+        return;
+    }
+    if args.len() >= 4 && args[1] == "c18" {
+        c18(&args[2], args[3].parse().unwrap_or(0));
         return;
     }
     if args.len() >= 2 && args[1] == "selfcheck" {
